@@ -52,6 +52,17 @@ def Tool.required (t : Tool) : List Cap :=
     | some (c :: cs) => c :: cs
     | _ => []
 
+/-- A declaration COMPUTED ON DEMAND: `required_capabilities` / `capabilities` are properties of the tool that hand back
+    a fresh ITERATOR object at every access (generator expression, `map`, `iter(…)`, an object that only has
+    `__iter__`).  Such an object is truthy even when it yields nothing, so the `or` chain of `_require_capabilities`
+    stops at a present `required_capabilities` and never reads `capabilities`; `set(…)` of the fresh object is taken
+    once per request.  As a tool VALUE of the model this is: `required_capabilities` as yielded, and no `capabilities`
+    attribute when the former is present and yields nothing. -/
+def iteratorDecl (req caps : Option (List Cap)) : Option (List Cap) × Option (List Cap) :=
+  match req with
+  | some [] => (some [], none)
+  | _ => (req, caps)
+
 def subset (a b : List Cap) : Bool := a.all (fun c => b.contains c)
 
 /-- `allowed_capabilities is not None and not required.issubset(allowed)` is the refusal condition -/
